@@ -39,10 +39,20 @@ def build_and_test(d):
     return rc == 0 and "100% tests passed" in out, out[-600:]
 
 
-def demo(d, src):
-    exe = os.path.join(d, "_demo")
-    rc, out = sh(["gcc", "-O1", "-g", "-I", "include", "-I", "lib", src, "_build/lib/libvorbisfile.a", "_build/lib/libvorbisenc.a",
-                  "_build/lib/libvorbis.a", "-logg", "-lm", "-lpthread", "-o", exe], cwd=d)
+LIBSRC = ["mdct.c", "smallft.c", "block.c", "envelope.c", "window.c", "lsp.c", "lpc.c", "analysis.c", "synthesis.c", "psy.c", "info.c",
+          "floor1.c", "floor0.c", "res0.c", "mapping0.c", "registry.c", "codebook.c", "sharedbook.c", "lookup.c", "bitrate.c", "vorbisfile.c", "vorbisenc.c"]
+SANFLAGS = ["-fsanitize=address", "-fsanitize=bounds,null,integer-divide-by-zero,pointer-overflow,vla-bound,unreachable,return", "-fno-sanitize-recover=all",
+            "-fno-omit-frame-pointer"]
+
+
+def demo(d, src, san=False):
+    exe = os.path.join(d, "_demo_san" if san else "_demo")
+    if san:   # demo and library compiled together under the gating sanitizer set (for changes whose symptom is a memory error)
+        cmd = ["gcc", "-O1", "-g", "-w"] + SANFLAGS + ["-I", "include", "-I", "lib", src] + [os.path.join("lib", x) for x in LIBSRC] + ["-logg", "-lm", "-lpthread", "-o", exe]
+    else:
+        cmd = ["gcc", "-O1", "-g", "-I", "include", "-I", "lib", src, "_build/lib/libvorbisfile.a", "_build/lib/libvorbisenc.a",
+               "_build/lib/libvorbis.a", "-logg", "-lm", "-lpthread", "-o", exe]
+    rc, out = sh(cmd, cwd=d)
     if rc:
         return None, out[-800:]
     try:
@@ -64,11 +74,16 @@ def confirm(prop, src, name):
         meta["tests_pass_with_change"] = ok
         if not ok:
             print("build/tests fail with change:", out); return 1
+        san = False
         rc1, o1 = demo(d, os.path.join(src, "demo.c"))
+        if rc1 in (None, 0):
+            san = True
+            rc1, o1 = demo(d, os.path.join(src, "demo.c"), san=True)
+        meta["demo_built_with_sanitizers"] = san
         meta["demo_exit_with_change"] = rc1; meta["demo_output_with_change"] = o1
         sh(["git", "checkout", "--", "."], cwd=d)
         ok0, out = build_and_test(d)
-        rc0, o0 = demo(d, os.path.join(src, "demo.c"))
+        rc0, o0 = demo(d, os.path.join(src, "demo.c"), san=san)
         meta["demo_exit_without_change"] = rc0
         print("with change: demo exit %s; without: %s" % (rc1, rc0))
         if rc1 in (None, 0) or rc0 != 0:
@@ -85,7 +100,7 @@ def confirm(prop, src, name):
         notes = open(os.path.join(src, "notes.md")).read()
     meta["needs_to_manifest"] = notes
     meta["what_was_run"] = ("scratch worktree of /repo HEAD: git apply patch.diff; cmake+ninja build; ctest (528-case suite) passed; "
-                            "demo.c linked against the patched static libs exits %s; after git checkout and rebuild it exits %s" % (rc1, rc0))
+                            "demo.c %s exits %s; after git checkout and rebuild it exits %s" % ("compiled together with the library under ASan+UBSan(bounds,...)" if san else "linked against the patched static libs", rc1, rc0))
     with open(os.path.join(dst, "meta.json"), "w") as f:
         json.dump(meta, f, indent=1)
     print("stored", dst)
